@@ -48,6 +48,16 @@ var Mutants = []Mutant{
 	{ID: "eq-array-first-element", Props: []string{"C01"}, Rule: "R-EQDEEP", File: "pkg/evaluator/value.go", Find: "\t\te2 := elements2[i]\n\t\tif !e.Equals(e2) {\n\t\t\treturn false\n\t\t}\n\t}\n\treturn true\n}", Replace: "\t\te2 := elements2[len(elements2)-1-i]\n\t\tif !e.Equals(e2) {\n\t\t\treturn false\n\t\t}\n\t}\n\treturn true\n}", Expect: "(*arrayVal).Equals#same-index", Describe: "array equality pairs element i with element n-1-i"},
 	{ID: "eq-any-ignores-type", Props: []string{"C01"}, Rule: "R-EQDEEP", File: "pkg/evaluator/value.go", Find: "return a.T.Equals(a2.T) && a.V.Equals(a2.V)", Replace: "return a.V.Equals(a2.V)", Expect: "(*anyVal).Equals#type-and-value", Describe: "an any compares by value only"},
 	{ID: "eq-vm-array-true-early", Props: []string{"C16"}, Rule: "R-EQDEEP", File: "pkg/bytecode/value.go", Find: "\t\tif !e.Equals(e2) {\n\t\t\treturn false\n\t\t}\n\t}\n\treturn true\n}", Replace: "\t\tif e.Equals(e2) {\n\t\t\treturn true\n\t\t}\n\t}\n\treturn len(a.Elements) == 0\n}", Expect: "(arrayVal).Equals#", Describe: "VM arrays are equal when one pair of elements is"},
+	{ID: "index-close-advance-in-helper", Props: []string{"C01"}, Rule: "R-WSSCLOSE", File: "pkg/parser/expression.go",
+		Find:     "\tif !p.validateIndex(tok, leftType, index.Type()) {\n\t\treturn nil\n\t}\n\tp.advanceWSS() // advance past ]",
+		Replace:  "\tif !p.validateIndex(tok, leftType, index.Type()) {\n\t\treturn nil\n\t}\n\tp.passRBracket()",
+		Find2:    "func (p *parser) parseSlice(",
+		Replace2: "func (p *parser) passRBracket() {\n\tp.advance()\n}\n\nfunc (p *parser) parseSlice(",
+		Expect:   "parseIndexOrSliceExpr#close", Describe: "the closing ] is passed by a helper that uses advance(): `[a[0] [1]]` becomes one expression"},
+	{ID: "literal-elements-wrapped-only-when-widened", Props: []string{"C02", "C04"}, Rule: "R-ACCEPTWRAP", File: "pkg/parser/expression.go",
+		Find:    "\tfor i, e := range elements {\n\t\telements[i] = wrapAny(e, sub)\n\t}",
+		Replace: "\tif !sub.Equals(types[0]) {\n\t\tfor i, e := range elements {\n\t\t\telements[i] = wrapAny(e, sub)\n\t\t}\n\t}",
+		Expect:  "parseArrayLiteral#combineTypes[1]:applied-to-every-element", Describe: "`[[\"a\" 1] [2]]`: the second element keeps bare nums under the static type [][]any"},
 	// C02 / C13
 	{ID: "normalizeIndex-no-roundtrip", Props: []string{"C02"}, Rule: "R-F2I/pkg/evaluator", File: "pkg/evaluator/value.go", Find: "\tif index.V != float64(i) {\n\t\treturn 0, fmt.Errorf(\"%w: %v\", ErrIndexValue, index.V)\n\t}\n", Replace: "", Expect: "normalizeIndex#f2i", Describe: "round-trip test dropped"},
 	{ID: "builtin-assert-mismatch", Props: []string{"C02", "C13"}, Rule: "R-BUILTINSIG", File: "pkg/evaluator/builtin.go", Find: "\tsep := args[1].(*stringVal)\n\ts := join(*arr.Elements, sep.V)", Replace: "\tsep := args[1].(*anyVal).V.(*stringVal)\n\ts := join(*arr.Elements, sep.V)", Expect: "builtin:join", Describe: "join asserts its separator to be an any"},
@@ -172,6 +182,18 @@ var Mutants = []Mutant{
 	{ID: "setkey-always-append", Props: []string{"C12"}, Rule: "R-MAPENC", File: "pkg/evaluator/value.go", Find: "\tif _, ok := m.Pairs[key]; !ok {\n\t\t*m.Order = append(*m.Order, key)\n\t}\n\tm.Pairs[key] = val", Replace: "\t*m.Order = append(*m.Order, key)\n\tm.Pairs[key] = val", Expect: "SetKey#body:order", Describe: "overwriting a key duplicates it in the order"},
 	{ID: "equals-order", Props: []string{"C12"}, Rule: "R-MAPENC", File: "pkg/evaluator/value.go", Find: "\tif len(m.Pairs) != len(m2.Pairs) {\n\t\treturn false\n\t}\n\tfor key, val := range m.Pairs {", Replace: "\tif len(m.Pairs) != len(m2.Pairs) || len(*m.Order) != len(*m2.Order) {\n\t\treturn false\n\t}\n\tfor key, val := range m.Pairs {", Expect: "(*mapVal).Equals#reads:Order", Describe: "map equality looks at the order"},
 	// C14
+	{ID: "eval-test-errors-before-stopped", Props: []string{"C14"}, Rule: "R-YIELD", File: "pkg/evaluator/evaluator.go",
+		Find:     "\tif err != nil {\n\t\treturn err\n\t}\n\tif len(e.TestInfo.errors) != 0 {\n\t\treturn TestErrors(e.TestInfo.errors)\n\t}\n\treturn err",
+		Replace:  "\tvar terr error\n\tif len(e.TestInfo.errors) != 0 {\n\t\tterr = TestErrors(e.TestInfo.errors)\n\t}\n\treturn cmp.Or(terr, err)",
+		Find2:    "import (\n\t\"errors\"",
+		Replace2: "import (\n\t\"cmp\"\n\t\"errors\"",
+		Expect:   "Eval#call[1]:eval", Describe: "a stopped run with an earlier failed test returns the test failures, not ErrStopped"},
+	{ID: "builtin-call-in-helper-unguarded", Props: []string{"C14"}, Rule: "R-YIELD", File: "pkg/evaluator/evaluator.go",
+		Find:     "\t\tif e.Stopped {\n\t\t\t// An argument such as `read` or `sleep` has handed control to\n\t\t\t// the platform, which asked to stop in the meantime.\n\t\t\treturn nil, ErrStopped\n\t\t}\n\t\tval, err := builtin.Func(e.scope, args)",
+		Replace:  "\t\tval, err := e.runBuiltin(builtin, args)",
+		Find2:    "func (e *Evaluator) evalFunccall(",
+		Replace2: "func (e *Evaluator) runBuiltin(b builtin, args []value) (value, error) {\n\treturn b.Func(e.scope, args)\n}\n\nfunc (e *Evaluator) evalFunccall(",
+		Expect:   "runBuiltin#builtin-call", Describe: "the built-in call moves into a helper and the stop test after the arguments is gone"},
 	{ID: "eval-no-yield", Props: []string{"C14"}, Rule: "R-YIELD", File: "pkg/evaluator/evaluator.go", Find: "\t\treturn nil, ErrStopped\n\t}\n\te.yield()\n", Replace: "\t\treturn nil, ErrStopped\n\t}\n", Expect: "eval#yield", Describe: "eval never yields"},
 	{ID: "for-swallows-error", Props: []string{"C14"}, Rule: "R-YIELD", File: "pkg/evaluator/evaluator.go", Find: "\t\tval, err := e.evalLoopBlock(f.Block)\n\t\tif err != nil {\n\t\t\treturn nil, err\n\t\t}", Replace: "\t\tval, err := e.evalLoopBlock(f.Block)\n\t\tif err != nil {\n\t\t\tbreak\n\t\t}", Expect: "evalFor#call", Describe: "a stop inside a for body is swallowed"},
 	// C15
@@ -189,6 +211,11 @@ var Mutants = []Mutant{
 	{ID: "breaks-aliased", Props: []string{"C17"}, Rule: "R-VMVALUES", File: "pkg/bytecode/compiler.go", Find: "\toutOfScopeBreaks := c.breaks\n\tc.breaks = []int{}", Replace: "\toutOfScopeBreaks := c.breaks\n\tc.breaks = c.breaks[:0]", Expect: "compileWhileStatement#fresh-breaks", Describe: "inner break list aliases the outer one"},
 	{ID: "pop-adds-indexes", Props: []string{"C16", "C17"}, Rule: "R-SLOTMAX", File: "pkg/bytecode/symbol.go", Find: "max(s.outer.nestedMaxIndex, s.nestedMaxIndex, s.index)", Replace: "max(s.outer.nestedMaxIndex, s.nestedMaxIndex+s.index)", Expect: "Pop#absolute-indexes", Describe: "absolute slot indexes are added: local count grows quadratically with nesting"},
 	// C18
+	{ID: "txtar-member-formatted-in-place", Props: []string{"C06", "C07"}, Rule: "R-NOINPLACE", File: "main.go", Find: "archive.Files[i].Data = []byte(out)", Replace: "archive.Files[i].Data = append(file.Data[:0], out...)", Expect: "fmtTxtarFile#no-in-place-append", Describe: "a formatted txtar member that grew overwrites the source of the next member in the shared buffer"},
+	{ID: "txtar-last-verdict-wins", Props: []string{"C18"}, Rule: "R-ATOMICWRITE", File: "main.go",
+		Find:    "\tarchive := txtar.Parse(b)\n\tfor i, file := range archive.Files {\n\t\tif filepath.Ext(file.Name) != \".evy\" {\n\t\t\tcontinue\n\t\t}\n\t\tout, err := format(file.Data, c.Check)\n\t\tif err != nil {\n\t\t\treturn err\n\t\t}\n\t\tarchive.Files[i].Data = []byte(out)\n\t}\n",
+		Replace: "\tarchive := txtar.Parse(b)\n\tvar last error\n\tfor i, file := range archive.Files {\n\t\tif filepath.Ext(file.Name) != \".evy\" {\n\t\t\tcontinue\n\t\t}\n\t\tout, err := format(file.Data, c.Check)\n\t\tlast = err\n\t\tarchive.Files[i].Data = []byte(out)\n\t}\n\tif last != nil {\n\t\treturn last\n\t}\n",
+		Expect:  "W8:verdict-kept", Describe: "only the last member of the archive decides the exit status of fmt --check"},
 	{ID: "write-in-place", Props: []string{"C18"}, Rule: "R-ATOMICWRITE", File: "main.go", Find: "\tif c.Write {\n\t\treturn writeAtomically([]byte(formatted), filename)\n\t}", Replace: "\tif c.Write {\n\t\treturn os.WriteFile(filename, []byte(formatted), 0o644)\n\t}", Expect: "os.WriteFile", Describe: "the target is truncated and rewritten in place"},
 	{ID: "temp-elsewhere", Props: []string{"C18"}, Rule: "R-ATOMICWRITE", File: "main.go", Find: "os.CreateTemp(filepath.Dir(filename), \"evy\")", Replace: "os.CreateTemp(os.TempDir(), \"evy\")", Expect: "W2:same-directory", Describe: "temp file in the system temp directory"},
 	{ID: "close-error-ignored", Props: []string{"C18"}, Rule: "R-ATOMICWRITE", File: "main.go", Find: "\tif err := tempFile.Close(); err != nil {\n\t\treturn fmt.Errorf(\"%s: %w\", filename, err)\n\t}", Replace: "\ttempFile.Close() //nolint:errcheck", Expect: "W3:Close-ok-before-Rename", Describe: "Close error ignored before rename"},
